@@ -19,6 +19,7 @@ import (
 
 	"deps.dev/util/maven"
 	"verif/harness/ev"
+	"verif/harness/mon/c15/mpr"
 )
 
 // ---------------------------------------------------------------- reference
@@ -103,11 +104,15 @@ func parseRef(line string) (refAnswer, error) {
 // ---------------------------------------------------------------- one evaluation
 
 type outcome struct {
-	LibDeps  []Row  `json:"-"`
-	LibMgmt  []Row  `json:"-"`
-	LibErr   string `json:"lib_error,omitempty"`
-	LibStage string `json:"-"`
-	Ref      refAnswer
+	LibDeps []Row `json:"-"`
+	LibMgmt []Row `json:"-"`
+	// The project again, after every other POM of the lineage was processed as
+	// a project of its own over one cache of decoded POMs ("" = same rows).
+	CachedDiff string `json:"cached_diff,omitempty"`
+	CachedRuns int    `json:"-"`
+	LibErr     string `json:"lib_error,omitempty"`
+	LibStage   string `json:"-"`
+	Ref        refAnswer
 }
 
 // evaluateAll writes the lineages under dir, asks Maven (one JVM) and runs the
@@ -143,6 +148,7 @@ func evaluateAll(dir string, ls []*Lineage) ([]outcome, error) {
 		}
 		outs[i].LibDeps = libRows(proj.Dependencies, false)
 		outs[i].LibMgmt = libRows(proj.DependencyManagement.Dependencies, true)
+		outs[i].CachedDiff, outs[i].CachedRuns = cachedPass(lp, ls[i], outs[i].LibDeps, outs[i].LibMgmt)
 	}
 	wg.Wait()
 	if jerr != nil {
@@ -156,6 +162,34 @@ func evaluateAll(dir string, ls []*Lineage) ([]outcome, error) {
 		outs[i].Ref = a
 	}
 	return outs, nil
+}
+
+// cachedPass processes the lineage's other POMs (ancestors first: the file
+// order reversed) and then the project itself, all over one cache of decoded
+// POMs, and compares the project's rows with the ones computed from files.
+func cachedPass(lp *libPipeline, l *Lineage, deps, mgmt []Row) (diff string, runs int) {
+	cache := mpr.NewCache()
+	key := func(p *Pom) maven.ProjectKey {
+		return maven.ProjectKey{GroupID: maven.String(p.Dir[0]), ArtifactID: maven.String(p.Dir[1]), Version: maven.String(p.Dir[2])}
+	}
+	for i := len(l.Poms) - 1; i >= 1; i-- {
+		lp.effectiveCached(key(&l.Poms[i]), cache)
+		runs++
+	}
+	proj, stage, err := lp.effectiveCached(key(&l.Poms[0]), cache)
+	runs++
+	if err != nil {
+		return fmt.Sprintf("error at %s: %v", stage, err), runs
+	}
+	cd, cm := libRows(proj.Dependencies, false), libRows(proj.DependencyManagement.Dependencies, true)
+	relabel := strings.NewReplacer("the library", "over the cache", "library", "over the cache", "Maven", "from the files")
+	if c, what := diffRows("dependencies", cd, deps); c != "" {
+		return relabel.Replace(what), runs
+	}
+	if c, what := diffRows("managed dependencies", cm, mgmt); c != "" {
+		return relabel.Replace(what), runs
+	}
+	return "", runs
 }
 
 func rowsEqual(a, b Row) bool {
@@ -246,8 +280,13 @@ func verdict(o outcome) (class, what string, discarded bool) {
 	if c, w := diffRows("dep-list", o.LibDeps, o.Ref.Deps); c != "" {
 		return c, w, false
 	}
-	c, w := diffRows("mgmt-list", o.LibMgmt, o.Ref.Mgmt)
-	return c, w, false
+	if c, w := diffRows("mgmt-list", o.LibMgmt, o.Ref.Mgmt); c != "" {
+		return c, w, false
+	}
+	if o.CachedDiff != "" {
+		return "C15:cached-poms:differs", "the project's effective POM agrees with Maven's when every POM is decoded afresh, but not when the lineage's other POMs were processed first over one cache of decoded POMs (each handed out by value): " + o.CachedDiff, false
+	}
+	return "", "", false
 }
 
 // ---------------------------------------------------------------- known shapes
@@ -682,6 +721,7 @@ func (m *monitor) process(ls []*Lineage, generated bool) error {
 			continue
 		}
 		r.Eval(1)
+		r.Count("cached_pom_pipeline_runs", int64(c.out.CachedRuns))
 		if generated {
 			r.Count("lineages:compared", 1)
 			mg, ov := nontrivial(l, c.out.Ref)
